@@ -160,6 +160,12 @@ def out_of_domain(case, mline):
             word = data.lstrip(b":").split(b" ", 1)[0] if not data.startswith(b":") else (data.split(b" ", 2)[1] if len(data.split(b" ", 2)) > 1 else b"")
             if any(c >= 0x80 for c in word):
                 return "non-ascii-command"
+            if word.upper() in (b"MODE", b"SVSMODE"):
+                # Go iterates the mode string by runes and prints string(byte) for an unknown mode character; the model
+                # iterates bytes (identical for ASCII mode strings, which is the modelled domain)
+                m = irclib.go_parse_message(data)
+                if m is not None and len(m[2]) > 1 and any(c >= 0x80 for c in m[2][1]):
+                    return "non-ascii-mode-string"
     return None
 
 
@@ -247,6 +253,48 @@ def time_shift_search(cs, delta=10 * 365 * 86400 * 10 ** 9):
                         "step": j, "cases": [irclib.case_line(cs[i]), irclib.case_line(shifted[i])],
                         "how_to_replay": "bin/check C01 --replay <this file> (both cases must give the same commands and recipients)"}
     return None
+
+
+def go_coverage(lines, limit=400):
+    """statement coverage of internal/ircserver reached by the correspondence driver on [lines] (the cover tool cannot
+    read overlay files, so a copy of the working tree with the harness files written into it is used).  Returns a dict
+    for the evidence: total percentage, and the uncovered blocks inside the command handlers."""
+    import shutil, subprocess
+    wd = os.path.join(vlib.workdir(), "covtree")
+    shutil.rmtree(wd, ignore_errors=True)
+    shutil.copytree(vlib.REPO, wd, ignore=shutil.ignore_patterns(".git"))
+    for k, v in irclib.OVERLAY.items():
+        shutil.copy(os.path.join(vlib.HGO, v), os.path.join(wd, k))
+    inp, outp, prof = os.path.join(wd, "cov.in"), os.path.join(wd, "cov.out"), os.path.join(wd, "cov.profile")
+    open(inp, "w").write("\n".join(lines[:limit]) + "\n")
+    env = vlib.go_env()
+    env.update({"VERIF_IN": inp, "VERIF_OUT": outp, "VERIF_STATS": outp + ".stats"})
+    rc, out = vlib.sh(["go", "test", "-tags", "verif", "-vet=off", "-count=1", "-run", "^TestVerifIrc$", "-coverpkg=./internal/ircserver/",
+                       "-coverprofile=" + prof, "."], cwd=wd, env=env, timeout=900)
+    res = {"ran": rc == 0 and os.path.exists(prof), "cases": min(limit, len(lines))}
+    if res["ran"]:
+        tot = cov = 0
+        unc = {}
+        for l in open(prof).read().split("\n")[1:]:
+            m = re.match(r"(.*):(\d+)\.\d+,(\d+)\.\d+ (\d+) (\d+)", l)
+            if not m or "zz_verif" in m.group(1):
+                continue
+            f = m.group(1).split("/")[-1]
+            n, c = int(m.group(4)), int(m.group(5))
+            handler = f.startswith(("cmd_", "scmd_")) or f in ("commands.go", "server_commands.go", "modes.go")
+            if handler:
+                tot += n
+                cov += n if c else 0
+                if not c:
+                    unc.setdefault(f, []).append("%s-%s" % (m.group(2), m.group(3)))
+        res["handler_statements"] = tot
+        res["handler_statements_covered"] = cov
+        res["handler_coverage_percent"] = round(100.0 * cov / max(1, tot), 1)
+        res["uncovered_handler_blocks"] = {f: v[:12] for f, v in sorted(unc.items())}
+    else:
+        res["output"] = out[-600:]
+    shutil.rmtree(wd, ignore_errors=True)
+    return res
 
 
 def panic_probe_search(case, step, limit=900):
@@ -459,6 +507,11 @@ def run_irc_check(ck, prop, prefix, replay, n_quick=120, n_thorough=2500, kinds=
                 ck.violation("c06:panic:probe", hit, concrete=True)
                 break
         ck.notes["panic_probe_searches"] = tried
+    if prop == "C06" and not replay:
+        try:
+            ck.cov["go_statement_coverage_of_handlers"] = go_coverage([irclib.case_line(c, "-") for c in cases])
+        except Exception as ex:
+            ck.notes["go_coverage_error"] = repr(ex)[:300]
     if mism and not [x for x in ck.violations] and prop == "C01":
         # search for a concrete failing input: the same history with every timestamp moved by the same amount must
         # produce the same replies (all uses of time in the state machine are differences of entry timestamps); a
